@@ -430,6 +430,9 @@ pub fn run_pool(ctx: &mut Ctx) {
     let max_pt = cfgs.values().map(|c| c.peer_timeout_ms).max().unwrap_or(1000);
     let bound = 3 * nq * (2 * u.ids.len() + 8) + 16;
     let mut step = 0;
+    // latest possible start of each query's clock: the first poll that certainly examined it (a poll that
+    // returned it, or one that went through all queries without finding anything to do)
+    let mut started_by: BTreeMap<usize, u64> = BTreeMap::new();
     loop {
         if ctx.failed() {
             return;
@@ -477,6 +480,7 @@ pub fn run_pool(ctx: &mut Ctx) {
                         }
                     }
                     Polled::Ask(qid, p) => {
+                        started_by.entry(qid).or_insert(now_ns);
                         ctx.ev(format!("t={}ms poll -> q{qid} ask {}", now_ns / 1_000_000, short(&p.raw())));
                         if let Some(r) = refs.get_mut(&qid) {
                             r.on_ask(ctx, p.raw(), now_ns, "pool");
@@ -490,6 +494,19 @@ pub fn run_pool(ctx: &mut Ctx) {
                     }
                     Polled::Waiting => {
                         ctx.ev(format!("t={}ms poll -> waiting", now_ns / 1_000_000));
+                        // this poll examined every query and cut none off: none may be past the query timeout
+                        for qid in refs.keys().filter(|k| !done.contains_key(k)) {
+                            let s0 = *started_by.entry(*qid).or_insert(now_ns);
+                            ctx.count("query_deadline_checks");
+                            if now_ns - s0 >= query_timeout_ms * 1_000_000 {
+                                ctx.fail(
+                                    "c09.query-timeout-not-enforced",
+                                    format!("pool: q{qid} has been running for at least {}ms (query timeout {query_timeout_ms}ms), has nothing to send, and a poll left it in the pool", (now_ns - s0) / 1_000_000),
+                                    &[],
+                                );
+                                return;
+                            }
+                        }
                         if drain {
                             // answer everything outstanding; if nothing is, let time pass
                             let mut any = false;
@@ -511,6 +528,7 @@ pub fn run_pool(ctx: &mut Ctx) {
                         }
                     }
                     Polled::Done(qid, res, timed_out) => {
+                        started_by.entry(qid).or_insert(now_ns);
                         ctx.ev(format!("t={}ms poll -> q{qid} {} [{}]", now_ns / 1_000_000, if timed_out { "TIMEOUT" } else { "finished" }, res.iter().map(|n| short(&n.raw())).collect::<Vec<_>>().join(",")));
                         if timed_out {
                             ctx.count("query_timeouts");
